@@ -111,6 +111,22 @@
       `match map.get_mut(&k) { Some(x) => A, None => B }` is `if let Some(x) = map.get_mut(&k) { A } else { B }`;
       `x.into()` without a type annotation on a byte container keeps the value (all byte containers share one
       representation);
+    * EXTERNAL AEAD: `renetcode/src/crypto.rs` is not translated; see section "the external AEAD" below for the mapping of
+      its four functions to the abstract instance parameter `[RustSem.Aead]` that the generated definitions of the groups
+      using them take (declared by `variable [RustSem.Aead]` in those files; Lean adds it exactly to the definitions that
+      use it), for the in-place buffer convention and for what is assumed (encryption does not fail; nothing else);
+      `chacha20poly1305::aead::Error` is the one-point `CryptoError`;
+    * `&mut [u8]` / `&mut [u8; N]` parameters are threaded through like the other `&mut` parameters; an argument
+      `&mut buf[a..b]` hands the callee the sub-slice (`slice`) and writes back what it returns (`splice`: same length —
+      the callee only had a `&mut [T]`); `io::Cursor::new(x)` is a reader over `x`, or — when the cursor is passed to an
+      `impl io::Write` parameter / written through — a writer whose writes land in the buffer `x` it was created over
+      (`Cursor::new(&mut buf[..])`, `Cursor::new(&mut *buf)`, `Cursor::new(buf)` for a `&mut [u8]` parameter); the kind is
+      taken from the callee's parameter type or from the later uses of the `let`-bound cursor; `position()` /
+      `set_position(n)` read / set the offset;
+    * a parameter of type `Option<&mut T>` is an optional reference: the generated function takes an `Option T` and
+      returns it (possibly updated) with the result; `if let Some(x) = p` makes `x` an alias of the `T` behind it; call
+      arguments are `Some(&mut place)` (written back), `None`, or such a parameter passed on.  Any other `&mut` nested in a
+      parameter type, and every `&mut` in a return type, is REJECTED (it would silently become a copy);
     * a type parameter `I: Into<T>` is `T` and `x.into()` the identity on it (what every caller in the crates passes:
       `u8` channel ids, `Bytes` / `Vec<u8>` messages); a `Result` call whose result the caller inspects
       (`if let Err(e) = f(..)`, `match f(..) { Ok(..) => .., Err(..) => .. }`) is `Exec.attempt`: the `&mut` state the
@@ -413,6 +429,10 @@ def slice (l : List α) (a b : Nat) (site : String) : Exec ε ρ (List α) :=
 /-- `l[a..b].copy_from_slice(src)`: the range must be valid and as long as `src`; returns the new `l` -/
 def copy_from_slice (l : List α) (a b : Nat) (src : List α) (site : String) : Exec ε ρ (List α) :=
   if a ≤ b ∧ b ≤ l.length ∧ src.length = b - a then .val (l.take a ++ src ++ l.drop b) else .panic site
+/-- writing back what a callee left in the sub-slice `l[a..b]` it was given as `&mut [T]` (`v` has the length
+    `b - a`: the callee could not change it) -/
+def splice (l : List α) (a b : Nat) (v : List α) (site : String) : Exec ε ρ (List α) :=
+  if a ≤ b ∧ b ≤ l.length then .val (l.take a ++ v ++ l.drop b) else .panic site
 /-- `v.resize(n, x)` -/
 def resize (l : List α) (n : Nat) (x : α) : List α := l.take n ++ List.replicate (n - l.length) x
 /-- `v.push(x)` -/
@@ -740,6 +760,59 @@ end Octets
 The selected code takes `&mut impl io::Read` / `&mut impl io::Write`; every caller in the crate passes an
 `io::Cursor<&[u8]>` / `io::Cursor<&mut [u8]>` (or `&mut [u8; N]`).  `io::Error` values are not distinguished. -/
 
+/-! ### the external AEAD (`renetcode/src/crypto.rs`, chacha20poly1305 crate)
+
+  `crypto.rs` is NOT translated: its four functions are mapped to the operations of an abstract AEAD that the generated
+  definitions take as the instance parameter `[RustSem.Aead]` (argument order: key nonce aad text; `seal` returns
+  ciphertext ‖ 16-byte tag, `open` takes ciphertext ‖ tag; `x…` = the 24-byte-nonce XChaCha variant):
+    `encrypt_in_place(buffer, sequence, key, aad)`          ↦ `buffer := seal key (0⁴ ‖ le64 sequence) aad buffer[..len-16]`
+    `dencrypted_in_place(buffer, sequence, key, aad)`       ↦ `open key (0⁴ ‖ le64 sequence) aad buffer`: `Some p` ⇒ `buffer := p ‖ buffer[len-16..]`
+                                                              (the tag bytes stay), `None` ⇒ `Err(CryptoError)`, buffer unchanged
+    `encrypt_in_place_xnonce(buffer, xnonce, key, aad)`     ↦ the same with `xseal key xnonce`
+    `dencrypted_in_place_xnonce(buffer, xnonce, key, aad)`  ↦ the same with `xopen key xnonce`
+  Buffer convention: in place, plaintext in `buffer[..len-16]`, the last 16 bytes receive / hold the tag;
+  `buffer.len() - NETCODE_MAC_BYTES` underflows (panic) for a buffer shorter than 16 bytes.  Encryption is assumed not
+  to fail (the crate's only error is a message longer than 2^38 bytes).  Nothing is assumed about `seal` / `open`
+  here; the functional laws (lengths, `open ∘ seal`) are hypotheses of theorems that need them. -/
+
+class Aead where
+  «seal» : List Nat → List Nat → List Nat → List Nat → List Nat
+  «open» : List Nat → List Nat → List Nat → List Nat → Option (List Nat)
+  xseal : List Nat → List Nat → List Nat → List Nat → List Nat
+  xopen : List Nat → List Nat → List Nat → List Nat → Option (List Nat)
+
+/-- `chacha20poly1305::aead::Error` -/
+inductive CryptoError where
+  | opaque
+  deriving Repr, DecidableEq
+
+/-- the 12-byte nonce of `crypto.rs`: four zero bytes, then the sequence (little endian) -/
+def crypto_nonce (sequence : Nat) : List Nat := [0, 0, 0, 0] ++ to_le_bytes 64 sequence
+
+def encrypt_in_place [a : Aead] (buffer : List Nat) (sequence : Nat) (key aad : List Nat) :
+    Res (CryptoError × List Nat) (List Nat × Unit) :=
+  if buffer.length < 16 then .panic "renetcode/src/crypto.rs:encrypt_in_place: buffer.len() - NETCODE_MAC_BYTES"
+  else .ok (a.seal key (crypto_nonce sequence) aad (buffer.take (buffer.length - 16)), ())
+
+def dencrypted_in_place [a : Aead] (buffer : List Nat) (sequence : Nat) (key aad : List Nat) :
+    Res (CryptoError × List Nat) (List Nat × Unit) :=
+  if buffer.length < 16 then .panic "renetcode/src/crypto.rs:dencrypted_in_place: buffer.len() - NETCODE_MAC_BYTES"
+  else match a.open key (crypto_nonce sequence) aad buffer with
+    | some p => .ok (p ++ buffer.drop (buffer.length - 16), ())
+    | none => .err (.opaque, buffer)
+
+def encrypt_in_place_xnonce [a : Aead] (buffer : List Nat) (xnonce key aad : List Nat) :
+    Res (CryptoError × List Nat) (List Nat × Unit) :=
+  if buffer.length < 16 then .panic "renetcode/src/crypto.rs:encrypt_in_place_xnonce: buffer.len() - NETCODE_MAC_BYTES"
+  else .ok (a.xseal key xnonce aad (buffer.take (buffer.length - 16)), ())
+
+def dencrypted_in_place_xnonce [a : Aead] (buffer : List Nat) (xnonce key aad : List Nat) :
+    Res (CryptoError × List Nat) (List Nat × Unit) :=
+  if buffer.length < 16 then .panic "renetcode/src/crypto.rs:dencrypted_in_place_xnonce: buffer.len() - NETCODE_MAC_BYTES"
+  else match a.xopen key xnonce aad buffer with
+    | some p => .ok (p ++ buffer.drop (buffer.length - 16), ())
+    | none => .err (.opaque, buffer)
+
 /-- `io::Cursor<&[u8]>` used through `io::Read` -/
 structure ReadCursor where
   buf : List Nat
@@ -756,6 +829,10 @@ def ReadCursor.read_exact (c : ReadCursor) (n : Nat) : Res (IoError × ReadCurso
   if (c.buf.drop c.pos).length < n then .err (.opaque, { c with pos := c.buf.length })
   else .ok ({ c with pos := c.pos + n }, (c.buf.drop c.pos).take n)
 
+/-- `Cursor::position()` / `set_position(pos)` (any `u64`; reads / writes past the end behave as at the end) -/
+def ReadCursor.position (c : ReadCursor) : Nat := c.pos
+def ReadCursor.set_position {ε : Type} (c : ReadCursor) (pos : Nat) : Res ε (ReadCursor × Unit) := .ok ({ c with pos := pos }, ())
+
 /-- `io::Cursor<&mut [u8]>` used through `io::Write` -/
 structure WriteCursor where
   buf : List Nat
@@ -764,6 +841,9 @@ structure WriteCursor where
 
 /-- `Cursor::new(slice)` -/
 def WriteCursor.new (buf : List Nat) : WriteCursor := ⟨buf, 0⟩
+
+def WriteCursor.position (c : WriteCursor) : Nat := c.pos
+def WriteCursor.set_position {ε : Type} (c : WriteCursor) (pos : Nat) : Res ε (WriteCursor × Unit) := .ok ({ c with pos := pos }, ())
 
 /-- `Write::write`: copies what fits (a short write is not an error) and returns the count -/
 def WriteCursor.write (c : WriteCursor) (b : List Nat) : Res IoError (WriteCursor × Nat) :=
